@@ -12,6 +12,7 @@ and, over ℝ, about `LightListener.__call__` as translated from the source by p
 import BeyondVerif.Lemmas.Listen
 import BeyondVerif.Model.ListenKinds
 import BeyondVerif.Generated.LightSrcR
+import Mathlib.Analysis.InnerProductSpace.LinearMap
 namespace BeyondVerif.C10
 open BeyondVerif.Listen
 
@@ -875,5 +876,62 @@ theorem light_geometry (pen : Bool) (rsun rbody d r dot : ℝ) (hd : 0 < d) (hr 
       · cases pen <;> norm_num [h1, h2, h3]
     · norm_num [h1, h2]
   · norm_num [h1]
+
+/-! ## which frame `LightListener.__call__` computes in (selection rule regenerated from the source) -/
+
+section LightFrame
+variable {V : Type} [NormedAddCommGroup V] [InnerProductSpace ℝ V]
+
+/-- a reference frame as far as positions go: an orientation (a linear isometry) and an origin, given as a geocentric position -/
+structure LFrame (V : Type) [NormedAddCommGroup V] [InnerProductSpace ℝ V] where
+  Q : V ≃ₗᵢ[ℝ] V
+  o : V
+
+/-- coordinates in the frame of the point with geocentric position `r` -/
+def LFrame.coords (F : LFrame V) (r : V) : V := F.Q (r - F.o)
+
+/-- geocentric position of the point with coordinates `x` in the frame -/
+def LFrame.pos (F : LFrame V) (x : V) : V := F.Q.symm x + F.o
+
+/-- the frame Sun and satellite are converted to by the first lines of `LightListener.__call__`: `self.frame` when given,
+otherwise — `rule` is `Generated.ListenSrc.lightFrameIfNone`, read off the source — the frame of the Sun's own state
+("sun") or the frame the state is expressed in ("orb") -/
+def lightFrame (rule : String) (selfFrame : Option (LFrame V)) (orbFrame sunFrame : LFrame V) : LFrame V :=
+  match selfFrame with
+  | some F => F
+  | none => if rule = "sun" then sunFrame else orbFrame
+
+/-- `LightListener(type, frame=selfFrame)(orb)` for a state with coordinates `xOrb` in its own frame `orbFrame`, the Sun at the
+geocentric position `sunGeo`, its own state being expressed in `sunFrame` -/
+noncomputable def lightOf (pen : Bool) (rsun rbody : ℝ) (selfFrame : Option (LFrame V)) (orbFrame sunFrame : LFrame V)
+    (xOrb sunGeo : V) : ℝ :=
+  let G := lightFrame Generated.ListenSrc.lightFrameIfNone selfFrame orbFrame sunFrame
+  R.lightValue pen rsun rbody ‖G.coords sunGeo‖ ‖G.coords (orbFrame.pos xOrb)‖
+    (@inner ℝ V _ (G.coords sunGeo) (G.coords (orbFrame.pos xOrb)))
+
+/-- **light_frame_independent.**  With the Sun's own state in a frame centred on the body (`sunFrame.o = 0`) and a listener
+created without a frame or with a frame centred on the body, the light value is a function of the GEOCENTRIC geometry only
+(the geocentric positions of Sun and satellite): it does not depend on the frame the state is expressed in (`orbFrame`:
+inertial, rotating, a station's topocentric frame, an orbit-attached frame), nor on the orientation of the frame asked for.
+(Not covered — and false of the code, open finding C10-light-explicit-noncentral-frame: an EXPLICIT `frame=` whose origin
+is not the body's centre; the cone is then built around an axis through that origin.) -/
+theorem light_frame_independent (pen : Bool) (rsun rbody : ℝ) (selfFrame : Option (LFrame V)) (orbFrame sunFrame : LFrame V)
+    (xOrb sunGeo : V) (hsun : sunFrame.o = 0) (hself : ∀ F, selfFrame = some F → F.o = 0) :
+    lightOf pen rsun rbody selfFrame orbFrame sunFrame xOrb sunGeo =
+      R.lightValue pen rsun rbody ‖sunGeo‖ ‖orbFrame.pos xOrb‖ (@inner ℝ V _ sunGeo (orbFrame.pos xOrb)) := by
+  have hG : (lightFrame Generated.ListenSrc.lightFrameIfNone selfFrame orbFrame sunFrame).o = 0 := by
+    cases hsf : selfFrame with
+    | some F => exact hself F hsf
+    | none =>
+      have : Generated.ListenSrc.lightFrameIfNone = "sun" := by decide
+      simp [lightFrame, this, hsun]
+  unfold lightOf
+  simp only [LFrame.coords, hG, sub_zero, LinearIsometryEquiv.norm_map, LinearIsometryEquiv.inner_map_map]
+
+example : lightOf true 1 1 (none : Option (LFrame ℝ)) ⟨LinearIsometryEquiv.refl ℝ ℝ, 5⟩ ⟨LinearIsometryEquiv.neg ℝ, 0⟩ 2 (-3) =
+    R.lightValue true 1 1 ‖(-3 : ℝ)‖ ‖(⟨LinearIsometryEquiv.refl ℝ ℝ, 5⟩ : LFrame ℝ).pos 2‖ (@inner ℝ ℝ _ (-3) ((⟨LinearIsometryEquiv.refl ℝ ℝ, 5⟩ : LFrame ℝ).pos 2)) :=
+  light_frame_independent _ _ _ _ _ _ _ _ rfl (by simp)
+
+end LightFrame
 
 end BeyondVerif.C10
